@@ -159,6 +159,13 @@ pub fn render(spec: &EnumSpec) -> String {
     let en = refsem::enabled(spec);
     let enl: Vec<String> = en.iter().map(|i| i.to_string()).collect();
     let newargs: Vec<String> = (0..en.len()).map(|j| format!("{}", j + 1)).collect();
+    // the value type of a table needs no Clone / Copy / Default for new, from_closure, transform, indexing, all, all_ok
+    let nc_args: Vec<String> = (0..en.len()).map(|j| format!("NoTraits({})", j)).collect();
+    o.push_str(&format!(
+        "#[allow(dead_code)]\nstruct NoTraits(u8);\n#[allow(dead_code)]\nfn _value_type_needs_no_traits() {{\n    let mut t = {name}Table::<NoTraits>::new({args});\n    let t2 = {name}Table::<NoTraits>::from_closure(|_| NoTraits(0));\n    let t3 = t2.transform(|_, v| ::core::option::Option::Some(NoTraits(v.0)));\n    let _ = t3.all();\n    let t4 = t.transform(|_, v| ::core::result::Result::<NoTraits, NoTraits>::Ok(NoTraits(v.0)));\n    let _ = t4.all_ok();\n    t[key(ENABLED[0])] = NoTraits(9);\n    let _ = &t[key(ENABLED[0])];\n}}\n",
+        name = name,
+        args = nc_args.join(", ")
+    ));
     o.push_str(&format!(
         r#"const ENABLED: &[usize] = &[{enl}];
 thread_local! {{ static CALLS: std::cell::RefCell<Vec<usize>> = std::cell::RefCell::new(Vec::new()); }}
